@@ -653,6 +653,8 @@ func c05PointerPrefixLen(depth int, idx string) int {
 }
 
 type c05Env struct {
+	allCuts  bool           // json-level cases: additionally every two-chunk split of the input
+	extraOpt []json.Options // json-level cases: additional options (user unmarshalers)
 	c        *Ctx
 	mu       sync.Mutex
 	minimise map[string]int
@@ -1658,7 +1660,7 @@ func c05Sentinel(err error, base int64) string {
 		err  error
 	}{{"range", strconv.ErrRange}, {"syntax", strconv.ErrSyntax}, {"unknown-name", json.ErrUnknownName}, {"ueof", io.ErrUnexpectedEOF},
 		{"eof", io.EOF}, {"dup", jsontext.ErrDuplicateName}, {"nonstring-name", jsontext.ErrNonStringName}, {"unsupported", errors.ErrUnsupported},
-		{"io", c05ErrTransient}, {"nonnil-ref", internal.ErrNonNilReference}, {"cycle", internal.ErrCycle}} {
+		{"io", c05ErrTransient}, {"user", c05ErrUser}, {"nonnil-ref", internal.ErrNonNilReference}, {"cycle", internal.ErrCycle}} {
 		if errors.Is(err, s.err) {
 			cl = append(cl, s.name)
 		}
@@ -1816,10 +1818,16 @@ func (e *c05Env) unmarshalCase(in []byte, r *rand.Rand, optSel int, targets []fu
 	for _, o := range c05Opts(optSel) {
 		opts = append(opts, o)
 	}
+	opts = append(opts, e.extraOpt...)
 	plans := c05StdPlans()
 	plans = append(plans, c05RandomPlan(r, len(in)), c05RandomPlan(r, len(in)))
 	if len(in) > 1 {
 		plans = append(plans, c05CutPlan(1+r.IntN(len(in)-1)))
+	}
+	if e.allCuts {
+		for cut := 1; cut < len(in); cut++ {
+			plans = append(plans, c05CutPlan(cut))
+		}
 	}
 	var errs []c05ErrSnap // every error returned in this case; must still read the same at the end
 	for _, m := range targets {
@@ -1960,8 +1968,14 @@ func (e *c05Env) decodeStreamCase(in []byte, r *rand.Rand, optSel int, mk func()
 	for _, o := range c05Opts(optSel) {
 		opts = append(opts, o)
 	}
+	opts = append(opts, e.extraOpt...)
 	plans := c05StdPlans()
 	plans = append(plans, c05RandomPlan(r, len(in)), c05RandomPlan(r, len(in)))
+	if e.allCuts {
+		for cut := 1; cut < len(in); cut++ {
+			plans = append(plans, c05CutPlan(cut))
+		}
+	}
 	for _, p := range plans {
 		fd := c05NewFeed(in, p)
 		var dec *jsontext.Decoder
@@ -2147,6 +2161,111 @@ func (x *c05From) UnmarshalJSONFrom(dec *jsontext.Decoder) error {
 	}
 	x.Raw = string(v)
 	return nil
+}
+
+// ---- errors located BEFORE a value: their ByteOffset is InputOffset + CountNextDelimWhitespace, so it must not depend
+// on how much of the run of ':' ',' and blanks in front of the value happened to be buffered.
+
+var c05ErrUser = errors.New("c05: user unmarshaler refuses")
+
+type c05ChanS struct {
+	A string   `json:"A"`
+	C chan int `json:"C"`
+	B int      `json:"B"`
+	F func()   `json:"F"`
+}
+type c05FmtS struct {
+	A int `json:"A"`
+	C int `json:"C,format:bogus"`
+	B int `json:"B"`
+}
+type c05inner struct{ X int }
+type c05OuterS struct {
+	*c05inner
+	Y int
+}
+type c05Refuse struct{ Seen bool }
+
+func (x *c05Refuse) UnmarshalJSONFrom(*jsontext.Decoder) error { return c05ErrUser }
+
+type c05RefuseS struct {
+	A int       `json:"A"`
+	C c05Refuse `json:"C"`
+	B int       `json:"B"`
+}
+type c05Mark struct{ V int }
+type c05MarkS struct {
+	A int     `json:"A"`
+	C c05Mark `json:"C"`
+	B int     `json:"B"`
+}
+type c05IntS struct {
+	A string `json:"A"`
+	C int8   `json:"C"`
+	B bool   `json:"B"`
+}
+
+func (e *c05Env) phaseBeforeValue() {
+	c := e.c
+	colon := []string{":", " :   ", ":\n\t ", " :   \n\t  ", "  :" + strings.Repeat(" ", 22), ":" + strings.Repeat("\n", 70)}
+	comma := []string{",", " ,   ", ",\n\t ", "  ,\r\n   \t", " ," + strings.Repeat(" ", 19), "," + strings.Repeat(" ", 66)}
+	lead := []string{"", " ", "\n\t  ", "", "      ", ""}
+	type tcase struct {
+		name string
+		mk   func() any
+		doc  func(k int) string
+		opt  []json.Options
+	}
+	obj := func(c1, c2 string) func(k int) string {
+		return func(k int) string {
+			return lead[k] + `{"A"` + colon[k] + c1 + comma[k] + `"C"` + colon[k] + c2 + comma[k] + `"B"` + colon[k] + `2}`
+		}
+	}
+	arr := func(el string) func(k int) string {
+		return func(k int) string { return lead[k] + "[" + lead[k] + el + comma[k] + el + comma[k] + el + "]" }
+	}
+	markFn := json.WithUnmarshalers(json.UnmarshalFromFunc(func(*jsontext.Decoder, *c05Mark) error { return c05ErrUser }))
+	cases := []tcase{
+		{"chan-field", func() any { return new(c05ChanS) }, obj(`"x"`, `1`), nil},
+		{"chan-field-object", func() any { return new(c05ChanS) }, obj(`"x"`, `{"q":[1,2]}`), nil},
+		{"func-field", func() any { return new(c05ChanS) }, func(k int) string { return `{"F"` + colon[k] + `null` + comma[k] + `"F"` + colon[k] + `1}` }, nil},
+		{"format-tag", func() any { return new(c05FmtS) }, obj(`1`, `3`), nil},
+		{"embedded-nil-unexported", func() any { return new(c05OuterS) }, func(k int) string { return lead[k] + `{"Y"` + colon[k] + `1` + comma[k] + `"X"` + colon[k] + `2}` }, nil},
+		{"UnmarshalerFrom-refuses", func() any { return new(c05RefuseS) }, obj(`1`, `{"x":1}`), nil},
+		{"UnmarshalerFrom-refuses-elements", func() any { return new([]c05Refuse) }, arr(`7`), nil},
+		{"UnmarshalFromFunc-refuses", func() any { return new(c05MarkS) }, obj(`1`, `[1]`), []json.Options{markFn}},
+		{"UnmarshalFromFunc-refuses-top", func() any { return new(c05Mark) }, func(k int) string { return lead[k] + lead[k] + `{"V":1}` }, []json.Options{markFn}},
+		{"slice-of-chan", func() any { return new([]chan int) }, arr(`1`), nil},
+		{"map-of-func", func() any { return new(map[string]func()) }, func(k int) string { return `{"k"` + colon[k] + `1` + comma[k] + `"l"` + colon[k] + `2}` }, nil},
+		{"type-mismatch", func() any { return new(c05IntS) }, obj(`7`, `"str"`), nil},
+		{"range", func() any { return new(c05IntS) }, obj(`"x"`, `300`), nil},
+	}
+	type job struct {
+		t tcase
+		k int
+	}
+	var jobs []job
+	for _, t := range cases {
+		for k := range colon {
+			jobs = append(jobs, job{t, k})
+		}
+	}
+	c05Parallel(c, len(jobs), func(ji int) {
+		j := jobs[ji]
+		r := c05Rng(c, 11, uint64(ji))
+		in := []byte(j.t.doc(j.k))
+		e2 := &c05Env{c: c, minimise: map[string]int{}, allCuts: true, extraOpt: j.t.opt}
+		for _, optSel := range []int{0, 4} {
+			c.Case(fmt.Sprintf("F3|%s|%d|%d", j.t.name, j.k, optSel), true)
+			c.Hit("before-value:" + j.t.name)
+			e2.unmarshalCase(in, r, optSel, []func() any{j.t.mk})
+			e2.decodeStreamCase(in, r, optSel, j.t.mk)
+			// the same document twice in a stream, with a delimiter-free blank run in between
+			in2 := append(append(append([]byte(nil), in...), []byte(lead[(j.k+2)%len(lead)]+" ")...), in...)
+			e2.decodeStreamCase(in2, r, optSel, j.t.mk)
+		}
+		e.cases.Add(e2.cases.Load())
+	})
 }
 
 func (e *c05Env) phaseUnmarshal() {
@@ -2811,5 +2930,6 @@ func runC05(c *Ctx) {
 	phase("phase C (random documents/scripts/plans)", e.phaseRandom)
 	phase("phase D (size sweep 48..8195)", e.phaseSizes)
 	phase("phase F (UnmarshalRead/UnmarshalDecode/IsValid)", e.phaseUnmarshal)
+	phase("phase G (errors located before a value, every split of the delimiter runs)", e.phaseBeforeValue)
 	c.HitN("stream-runs-total", e.cases.Load())
 }
